@@ -14,9 +14,11 @@ import (
 
 	chain "github.com/comdex-official/comdex/app"
 	"github.com/comdex-official/comdex/app/wasm/bindings"
+	assettypes "github.com/comdex-official/comdex/x/asset/types"
 	esmtypes "github.com/comdex-official/comdex/x/esm/types"
 	lockertypes "github.com/comdex-official/comdex/x/locker/types"
 	rewardstypes "github.com/comdex-official/comdex/x/rewards/types"
+	tokenminttypes "github.com/comdex-official/comdex/x/tokenmint/types"
 	vaulttypes "github.com/comdex-official/comdex/x/vault/types"
 )
 
@@ -40,6 +42,7 @@ type c13World struct {
 	vuser  sdk.AccAddress    // runs the vault messages (not projected)
 	ep     map[[2]uint64]uint64 // (app, assetOut) -> extended pair id
 	height int64
+	aucHeavy bool // the case concentrates on auction flows
 }
 
 func c13U(n uint64) string { return fmt.Sprint(n) }
@@ -174,10 +177,26 @@ func c13NewWorld(t *testing.T, a *chain.App, base sdk.Context, tr *tracer) *c13W
 func c13Base(t *testing.T, a *chain.App, ctx sdk.Context) (apps, assets []uint64, denom map[uint64]string, ep map[[2]uint64]uint64) {
 	denom = map[uint64]string{}
 	ep = map[[2]uint64]uint64{}
-	apps = []uint64{addAppRecord(t, a, ctx, "appone"), addAppRecord(t, a, ctx, "apptwo")}
 	a1 := addAsset(t, a, ctx, "CMDX", "ucmdx", 1000000, true, false)
 	a2 := addAsset(t, a, ctx, "CMST", "ucmst", 1000000, true, true)
 	a3 := addAsset(t, a, ctx, "HARBOR", "uharbor", 1000000, true, true)
+	// the apps carry tokenmint data for the secondary (governance) asset: the auction closes burn / mint it
+	for i, name := range []string{"appone", "apptwo"} {
+		err := a.AssetKeeper.AddAppRecords(ctx, assettypes.AppData{Name: name, ShortName: name, MinGovDeposit: sdk.NewInt(0), GovTimeInSeconds: 0,
+			GenesisToken: []assettypes.MintGenesisToken{{AssetId: a3, GenesisSupply: sdk.NewInt(1000000000000000), IsGovToken: i == 0, Recipient: addrN(80).String()}}})
+		if err != nil {
+			t.Fatalf("AddAppRecords: %v", err)
+		}
+		all, _ := a.AssetKeeper.GetApps(ctx)
+		for _, ap := range all {
+			if ap.Name == name {
+				apps = append(apps, ap.Id)
+			}
+		}
+		if cls, err, _ := execMsg(a, ctx, &tokenminttypes.MsgMintNewTokensRequest{From: addrN(80).String(), AppId: apps[i], AssetId: a3}); cls != "ok" {
+			t.Fatalf("MsgMintNewTokens: %s %v", cls, err)
+		}
+	}
 	assets = []uint64{a1, a2, a3}
 	denom[a1], denom[a2], denom[a3] = "ucmdx", "ucmst", "uharbor"
 	setPrice(a, ctx, a1, 2000000, true)
@@ -379,6 +398,9 @@ func (w *c13World) c13RandomOp(r *rng, stage int) {
 		return lockers[r.intn(len(lockers))], true
 	}
 	k := r.intn(100)
+	if w.aucHeavy && r.chance(35) {
+		k = 99
+	}
 	switch {
 	case k < 10:
 		w.c13Create(u, app, asset, c13Amount(r))
@@ -478,7 +500,7 @@ func (w *c13World) c13RandomOp(r *rng, stage int) {
 		} else {
 			w.c13SetBreaker(w.apps[r.intn(2)], r.chance(40))
 		}
-	case k < 90 && stage >= 2:
+	case k < 84 && stage >= 2:
 		// vault messages generating fees (draw-down fee, interest, closing fee)
 		if app == 7 {
 			app = w.apps[0]
@@ -513,7 +535,7 @@ func (w *c13World) c13RandomOp(r *rng, stage int) {
 				w.c13Vault("depdraw", app, out, vaulttypes.NewMsgDepositAndDrawRequest(w.vuser, app, ep, v.Id, sdk.NewInt(in)))
 			}
 		}
-	case k < 94 && stage >= 2:
+	case k < 88 && stage >= 2:
 		nf, _ := w.a.CollectorKeeper.GetNetFeeCollectedData(w.ctx, app, asset)
 		amt := c13Amount(r)
 		if !nf.NetFeesCollected.IsNil() && nf.NetFeesCollected.IsPositive() {
@@ -541,7 +563,7 @@ func (w *c13World) c13RandomOp(r *rng, stage int) {
 	}
 }
 
-func c13RunCase(t *testing.T, a *chain.App, base sdk.Context, tr *tracer, r *rng, ci int, emit bool, apps, assets []uint64,
+func c13RunCase(t *testing.T, a *chain.App, base sdk.Context, tr *tracer, r *rng, ci int, emit bool, directed int, apps, assets []uint64,
 	denom map[uint64]string, ep map[[2]uint64]uint64) {
 	w := c13NewWorld(t, a, base, tr)
 	if !emit {
@@ -552,6 +574,7 @@ func c13RunCase(t *testing.T, a *chain.App, base sdk.Context, tr *tracer, r *rng
 	w.vuser = addrN(29)
 	stage := 3
 	nops := 20 + r.intn(31)
+	w.aucHeavy = r.chance(30)
 	var sb strings.Builder
 	for _, x := range apps {
 		fmt.Fprintf(&sb, " %d", x)
@@ -577,6 +600,17 @@ func c13RunCase(t *testing.T, a *chain.App, base sdk.Context, tr *tracer, r *rng
 	w.c13AucInit()
 	w.tr.p("op init ok")
 	w.c13Obs()
+	switch directed {
+	case 1:
+		w.c13DirectedPenalty()
+		return
+	case 2:
+		w.c13DirectedV2English(true)
+		return
+	case 3:
+		w.c13DirectedV2English(false)
+		return
+	}
 	// mostly-valid setup prefix: lookup tables, whitelists, reward whitelists
 	for _, app := range apps {
 		for ai, as := range assets[1:] {
@@ -618,7 +652,12 @@ func TestC13(t *testing.T) {
 	ncases := envInt("VERIF_CASES", 40)
 	only := envInt("VERIF_CASE", -1)
 	apps, assets, denom, ep := c13Base(t, a, base)
+	// cases 0..2: the directed witnesses of the known-finding classes (seed-independent); then random
 	for ci := 0; ci < ncases; ci++ {
-		c13RunCase(t, a, base, tr, r, ci, only < 0 || only == ci, apps, assets, denom, ep)
+		directed := 0
+		if ci < 3 {
+			directed = ci + 1
+		}
+		c13RunCase(t, a, base, tr, r, ci, only < 0 || only == ci, directed, apps, assets, denom, ep)
 	}
 }
